@@ -203,7 +203,7 @@ type replayOut struct {
 func fmtHash(b []byte) string { return hex.EncodeToString(b) }
 
 // replayStream runs a recorded stream on a fresh default SimApp.
-func replayStream(s chainStream, keepExport bool) (out replayOut) {
+func replayStream(tb testing.TB, s chainStream, keepExport bool) (out replayOut) {
 	out.GoMaxProcs, out.Pid = runtime.GOMAXPROCS(0), os.Getpid()
 	defer func() {
 		if r := recover(); r != nil {
@@ -216,6 +216,7 @@ func replayStream(s chainStream, keepExport bool) (out replayOut) {
 	})
 	app.CommitMultiStore().AddListeners(app.GetStoreKeys())
 	baseapp.SetChainID(s.ChainID)(app.GetBaseApp())
+	sim.NewDetachedWorld(tb, app) // same scripted mock applications as the recording node
 	var next *abci.RequestFinalizeBlock
 	nextBlock := func(from int) *abci.RequestFinalizeBlock {
 		for _, it := range s.Items[from:] {
@@ -404,7 +405,7 @@ func TestReplayWorker(t *testing.T) {
 	}
 	var outs []replayOut
 	for _, s := range streams {
-		outs = append(outs, replayStream(s, os.Getenv("VERIF_C45_KEEP_EXPORT") != ""))
+		outs = append(outs, replayStream(t, s, os.Getenv("VERIF_C45_KEEP_EXPORT") != ""))
 	}
 	res, _ := json.Marshal(outs)
 	if err := os.WriteFile(outPath, res, 0o644); err != nil {
@@ -696,7 +697,7 @@ func addExtrasRecorded(w *sim.World, ex Extras, recs []*recorder) {
 	st := addExtrasWith(w, ex, func(msg *ratelimittypes.MsgAddRateLimit) {
 		bz, _ := proto.Marshal(msg)
 		recs[0].insertBeforeLastBlock(streamItem{Kind: "addratelimit", Msg: bz})
-	})
+	}, true)
 	_ = st
 }
 
